@@ -33,7 +33,12 @@ ASSUMPTIONS = ["CPython's list.append is atomic (premise for the thread clause, 
 OUTSIDE = ["thread schedules with more than one pre-emption or with switches inside a single statement",
            "sequences longer than two operations as such (covered by the inductive argument)"]
 LEVEL_TEXT = ("Every ordered pair of API operations with free arguments is executed on shared wallet/node objects; each result is "
-              "compared by the solver with a stateless recomputation from the root, and the root and earlier nodes are shown unchanged.")
+              "compared by the solver with a stateless recomputation from the root, and the root and earlier nodes are shown unchanged. "
+              "Thread schedules with one pre-emption between two operations (on two nodes, and on one node) are explored with the switch "
+              "point as a solver variable; witnesses are replayed on two real threads.")
+TECHNIQUE = ("symbolic execution of the real Python source (AST-instrumented import, z3 terms), per-path SMT queries; thread "
+             "schedules: bounded model checking with the pre-emption point as a solver variable (one pre-emption, statement/call "
+             "granularity), native replay on real threads")
 LEVEL_NOTE = ("Trusted: z3, ckd contract.  Thread schedules: one pre-emption at statement/call granularity with the switch point a "
               "solver variable; witnesses are replayed on two real threads.")
 OPS = ("by_path", "ckd", "children", "address", "xkeys", "bip85", "reuse", "generator")
